@@ -148,6 +148,7 @@ func encodeGrpcMessage(msg string) string {
 	if pos == 0 {
 		return msg
 	}
+	sb.WriteString(msg[pos:])
 	return sb.String()
 }
 
